@@ -657,14 +657,16 @@ func (t *tokenAwareHostPolicy) Pick(qry ExecutableQuery) NextHost {
 		}
 
 		if t.nonLocalReplicasFallback {
-			for j < len(remote) && k < len(remote[j]) {
-				h := remote[j][k]
-				k++
-
+			for j < len(remote) {
 				if k >= len(remote[j]) {
+					// this tier is exhausted (or has no replica at all), go on with the next one
 					j++
 					k = 0
+					continue
 				}
+
+				h := remote[j][k]
+				k++
 
 				if h.IsUp() {
 					used[h] = true
